@@ -664,6 +664,8 @@ class Function(ValueNode):
     def func(self, function_handle):
         self._func = function_handle
         self._stale = True
+        # the value of this node changes with its function: notify the parents
+        self.notify_parents()
 
     @ValueNode.value.setter
     def value(self, value):
